@@ -19,7 +19,8 @@ History format (JSON):
   C = {"abbr": str, "via": "dict"|"obj"|"copy"|"default"|"nocache", "d": index of dict / obj}
       via copy    : an equal but distinct dict (deep copy of the spec) that still shares the named cache dict
       via default : expand(abbr) with no configuration at all
-  D = JSON config; option value "@tabstop" for 'output.field' stands for a tabstop-printing callback.
+  D = JSON config; option value "@tabstop" for 'output.field' stands for a tabstop-printing callback; key "@global"
+      holds the global_config passed along with this dict (third argument of expand / second of Config).
 """
 import copy
 import gc
@@ -46,10 +47,21 @@ def build_dict(spec, caches, with_cache=True):
         for k, v in list(opts.items()):
             if v == '@tabstop':
                 opts[k] = _field
+    d.pop('@global', None)
     c = d.pop('cache', None)
     if c is not None and with_cache:
         d['cache'] = caches[c]
     return d
+
+
+def build_global(spec):
+    """the global_config argument of expand(abbr, config, global_config) / Config(config, global_config)"""
+    g = spec.get('@global')
+    return copy.deepcopy(g) if g is not None else None
+
+
+def mk_config(d, g):
+    return Config(d, g) if g is not None else Config(d)
 
 
 def strip(d):
@@ -201,7 +213,7 @@ def fail_stage(kind, tb):
     return 9
 
 
-def do_call(abbr, cfg_arg, use_default=False):
+def do_call(abbr, cfg_arg, use_default=False, g=None):
     """the code path of emmet.expand; returns (outcome, kind, stage)"""
     kind = '?'
     try:
@@ -212,6 +224,8 @@ def do_call(abbr, cfg_arg, use_default=False):
             kind = cfg_arg.type if cfg_arg.type == 'stylesheet' else 'markup'
         else:
             kind = 'stylesheet' if cfg_arg.get('type', 'markup') == 'stylesheet' else 'markup'
+        if g is not None and not isinstance(cfg_arg, Config):
+            return ['ok', emmet.expand(abbr, cfg_arg, g)], kind, 0
         return ['ok', emmet.expand(abbr, cfg_arg)], kind, 0
     except RecursionError:
         return ['err', 'RecursionError'], kind, 8
@@ -263,28 +277,34 @@ def run_history(h):
 def _run_calls(h, res, base_mod):
     caches = [dict() for _ in range(h.get('ncaches', 0))]
     dicts = [build_dict(s, caches) for s in h['dicts']]
-    objs = [Config(dicts[i]) for i in h.get('objs', [])]
+    globs = [build_global(s) for s in h['dicts']]
+    objs = [mk_config(dicts[i], globs[i]) for i in h.get('objs', [])]
     prev_mod = base_mod
     seq = list(h['calls']) + [h['probe']]
     for ci, c in enumerate(seq):
         via = c['via']
         transient = None
+        g = None
         if via == 'dict':
             arg = dicts[c['d']]
+            g = globs[c['d']]
             watched = [('dict', c['d'], arg)]
         elif via == 'obj':
             arg = objs[c['d']]
             watched = [('dict', h['objs'][c['d']], arg.user_config)]
         elif via in ('copy', 'nocache'):
             arg = build_dict(h['dicts'][c['d']], caches, with_cache=(via == 'copy'))
+            g = globs[c['d']]
             transient = arg
             watched = [('transient', c['d'], arg)]
         else:
             arg = None
             watched = []
+        if g is not None:
+            watched.append(('global_config', c['d'], g))
         before = [copy.deepcopy(strip(w[2])) for w in watched]
         obj_before = [fp(config_view(o)) for o in objs]
-        out, kind, stage = do_call(c['abbr'], arg, use_default=(via == 'default'))
+        out, kind, stage = do_call(c['abbr'], arg, use_default=(via == 'default'), g=g)
         rec = {'out': out, 'kind': kind, 'stage': stage}
         # caller's dict deep equality (also after a raising call)
         for (wk, wi, wd), b in zip(watched, before):
@@ -306,6 +326,7 @@ def _run_calls(h, res, base_mod):
             rec['bem'] = -1
         transient = None
         arg = None
+        g = None
         watched = None
         gc.collect()
         try:
@@ -334,8 +355,9 @@ def run_single(h, c, variant):
     else:
         di = h['objs'][c['d']] if via == 'obj' else c['d']
         d = build_dict(h['dicts'][di], caches, with_cache=(variant == 'cache' and via != 'nocache'))
-        arg = Config(d) if via == 'obj' else d
-        out, kind, stage = do_call(c['abbr'], arg)
+        g = build_global(h['dicts'][di])
+        arg = mk_config(d, g) if via == 'obj' else d
+        out, kind, stage = do_call(c['abbr'], arg, g=g)
     return {'out': out, 'kind': kind, 'stage': stage}
 
 
@@ -350,7 +372,7 @@ def run_tables(h):
             continue
         d = build_dict(spec, [], with_cache=False)
         try:
-            out.append(table_fp(convert_snippets(Config(d).snippets)))
+            out.append(table_fp(convert_snippets(mk_config(d, build_global(spec)).snippets)))
         except Exception:
             out.append(None)
     return out
